@@ -116,6 +116,7 @@ type histGen struct {
 }
 
 type histOpts struct {
+	bfpEpisodes bool // C11: frequent "rewrite, revoke, rule starts to cover, push on top" episodes
 	globalRules bool
 	fileRules   bool
 	delegation  bool
@@ -316,7 +317,11 @@ func (g *histGen) run(nEvents int) {
 	g.b.AddPolicy(g.pol, r.Chance(80))
 	for ev := 0; ev < nEvents; ev++ {
 		ref := histRefs[r.Intn(len(histRefs))]
-		switch x := r.Intn(100); {
+		x := r.Intn(100)
+		if g.opts.bfpEpisodes && r.Chance(12) {
+			x = 95 // the late block-force-pushes episode below
+		}
+		switch {
 		case x < 48:
 			g.stepPush(ref, r.Chance(75), r.Chance(8), nil)
 		case x < 60:
